@@ -60,8 +60,14 @@ struct Ref {
       // a repeated step must not advance the coordinate twice (a jump of the actual coordinate by more than half a
       // width re-initialises it on the actual value, as documented in the log)
       double j = (xi - xi_prev) / 0.5;
-      if (j * j > 0.25) { cur.x = xi; }
-      else cur = prev;
+      if (j * j > 0.25) {
+        // re-initialised on the actual value - never outside a reflecting boundary - with the velocity it had before
+        // the integration that is being repeated (the step must not advance the velocity twice either)
+        cur.x = xi;
+        if (p.refl == 1 && cur.x < 1.9) cur.x = 1.9;
+        if (p.refl == 2 && cur.x > 2.1) cur.x = 2.1;
+        cur.v = prev.v;
+      } else cur = prev;
     }
     Out o;
     o.x_rep = cur.x;
@@ -121,7 +127,13 @@ int main(int argc, char **argv)
         std::string wj = "[";
         for (int i = 0; i < L; i++) wj += std::string(i ? "," : "") + "[" + num(MOVE[mv[i]]) + "," + num(FORCE[fc[i]]) + "]";
         wj += "]";
-        for (long sgk = 0; sgk < nseg * 3; sgk++) {
+        for (long sgk0 = 0; sgk0 < nseg * 3 * 3; sgk0++) {
+          long sgk = sgk0 % (nseg * 3);
+          // the atoms are displaced by more than half a width between the two evaluations of a repeated step (coordinates
+          // exchanged or minimised between two runs of the same process): 0 no, 1 upwards, 2 downwards
+          int jmp = (int) (sgk0 / (nseg * 3));
+          double jump = jmp == 0 ? 0.0 : (jmp == 1 ? 0.4 : -0.4);
+          if (jmp > 0 && (sgk / nseg != 0 || sgk % nseg == 0)) continue;
           long sg = sgk % nseg;
           // kind of run boundary: 0 = new run in the same process; 1 = state saved, new process loads it and repeats the
           // stop step; 2 = as 1, and the new process evaluates the stop step twice ("run 0" followed by "run N")
@@ -132,7 +144,8 @@ int main(int argc, char **argv)
           r.count("evaluations");
           std::string det = "{\"sigma\":" + num(p.sigma) + ",\"tau\":" + num(p.tau) + ",\"dt\":" + num(p.dt) + ",\"damping\":" + num(p.gamma_ps) + ",\"reflecting\":" +
                             std::to_string(p.refl) + ",\"bypassing_bias\":" + (p.bypass ? "true" : "false") + ",\"moves_and_forces\":" + wj + ",\"new_run_after_steps\":" +
-                            std::to_string(sg) + ",\"run_boundary\":\"" + (kind == 0 ? "same process" : (kind == 1 ? "state restart" : "state restart, stop step evaluated twice")) + "\"";
+                            std::to_string(sg) + ",\"run_boundary\":\"" + (kind == 0 ? "same process" : (kind == 1 ? "state restart" : "state restart, stop step evaluated twice")) + "\"" +
+                            (jmp ? ",\"atoms_displaced_between_the_runs_by\":" + num(jump) : std::string());
           double xi = 2.0;
           double fnow = 0;
           vproxy *px = NULL;
@@ -168,6 +181,8 @@ int main(int argc, char **argv)
                 // boundary after step s?
                 if (!(s < L - 1 && ((sg >> s) & 1))) break;
                 px->end_run();
+                xi += jump;
+                if (xi < 0.5) xi = 0.5;
                 if (kind > 0) {
                   std::string st = px->state_text();
                   std::deque<double> rest = px->rng;
@@ -202,6 +217,10 @@ int main(int argc, char **argv)
                 }
               };
               cmp("reported-value-differs-from-integrator", cv->x_reported.real_value, o.x_rep, 1.0);
+              if (!failed && ((p.refl == 1 && cv->x_reported.real_value < 1.9 - 1e-12) || (p.refl == 2 && cv->x_reported.real_value > 2.1 + 1e-12))) {
+                r.violation("C17:coordinate-outside-reflecting-boundary", det + ",\"step\":" + std::to_string(s) + ",\"reported_value\":" + num(cv->x_reported.real_value) + "}");
+                failed = true;
+              }
               if (!after_reflection) cmp("reported-velocity-differs-from-integrator", cv->v_reported.real_value, o.v_rep, 1e-3);
               cmp("potential-energy-differs", cv->potential_energy, o.Ep, 1.0);
               if (!after_reflection) cmp("kinetic-energy-differs", cv->kinetic_energy, o.Ek, 1e-3);
@@ -293,6 +312,10 @@ int main(int argc, char **argv)
                 }
               };
               cmp("reported-value-differs-from-integrator", cv->x_reported.real_value, o.x_rep, 1.0);
+              if (!failed && ((p.refl == 1 && cv->x_reported.real_value < 1.9 - 1e-12) || (p.refl == 2 && cv->x_reported.real_value > 2.1 + 1e-12))) {
+                r.violation("C17:coordinate-outside-reflecting-boundary", det + ",\"step\":" + std::to_string(s) + ",\"reported_value\":" + num(cv->x_reported.real_value) + "}");
+                failed = true;
+              }
               cmp("new-position-differs-from-integrator-with-the-long-time-step", cv->x_ext.real_value, ref.cur.x, 1.0);
               // energies at the time origin of the step: coupling energy, and kinetic energy after half a kick of the LONG step
               cmp("potential-energy-differs", cv->potential_energy, o.Ep, 1.0);
